@@ -159,19 +159,32 @@ Definition dial_overtakes_writer (hold : bool) : bool :=
 Inductive scheme := Https | Http.     (* wss:// is dialled as https://, ws:// as http:// *)
 
 (* the URL the handshake ends on: [cur] is the URL being requested ([n] requests made before
-   it), [redirects] the schemes of the Location of each redirect answer in turn *)
-Fixpoint ws_dial (cur : scheme) (redirects : list scheme) (n : nat) : option scheme :=
-  match redirects with
-  | [] => Some cur
-  | nxt :: rest =>
-      if Nat.leb 10 (S n) then None                         (* stopped after 10 redirects *)
-      else match cur, nxt with
-           | Https, Http => None                            (* noDowngradeRedirect *)
-           | _, _ => ws_dial nxt rest (S n)
-           end
+   it), [redirects] the schemes of the Location of each redirect answer in turn.  [tls_ok]: the TLS
+   handshake with an https endpoint succeeds under the TLS configuration of the APPLICATION
+   (Config.TLSConfig, cloned into the dialling HTTP transport: its roots, its verification callbacks;
+   the name checked is ServerName or else the host of the URL) -- a request to an https URL whose
+   handshake fails is a dial error. *)
+Fixpoint ws_dial (tls_ok : bool) (cur : scheme) (redirects : list scheme) (n : nat) : option scheme :=
+  match cur, tls_ok with
+  | Https, false => None
+  | _, _ =>
+      match redirects with
+      | [] => Some cur
+      | nxt :: rest =>
+          if Nat.leb 10 (S n) then None                         (* stopped after 10 redirects *)
+          else match cur, nxt with
+               | Https, Http => None                            (* noDowngradeRedirect *)
+               | _, _ => ws_dial tls_ok nxt rest (S n)
+               end
+      end
   end.
 
 Definition ws_secure (s : scheme) : bool := match s with Https => true | Http => false end.
+
+(* WebsocketTransport.IsSecure: the CONFIGURED address is a wss:// one and the connection the handshake
+   ended on runs over TLS.  (A ws:// address redirected to https:// is not secure: the redirect was
+   received in clear text, whoever sent it chose the host the certificate is then checked against.) *)
+Definition ws_is_secure (addr final : scheme) : bool := ws_secure addr && ws_secure final.
 
 Inductive wres :=
 | WDialError                (* Connect fails: nothing but HTTP requests was written *)
@@ -180,8 +193,8 @@ Inductive wres :=
 
 (* Client.connect over the websocket transport, up to the first write of authentication data
    (the server offers a mechanism the client has) *)
-Definition ws_connect (insecure : bool) (addr : scheme) (redirects : list scheme) : wres :=
-  match ws_dial addr redirects 0 with
+Definition ws_connect (insecure tls_ok : bool) (addr : scheme) (redirects : list scheme) : wres :=
+  match ws_dial tls_ok addr redirects 0 with
   | None => WDialError
-  | Some s => if ws_secure s || insecure then WAuth (ws_secure s) else WNoTls
+  | Some s => if ws_is_secure addr s || insecure then WAuth (ws_secure s) else WNoTls
   end.
